@@ -954,4 +954,157 @@ theorem forLoop_fuel_enough (m : Mode) (r : Nat) (w : Bool) (b : Body) (h : Heap
   | succ d ih =>
     rw [← Nat.add_assoc, forLoop_fuel_succ m r w b (f + d) h k acc xs hg (by omega), ih]
 
+/-! ### sorting numbers of every magnitude -/
+
+/-- on numbers the comparator `object.Sort` uses is "less by exact value", whatever the
+    magnitude and whichever of the three numeric types the two items have (`cmpVal_num`) -/
+theorem cmp_aux (p q : Int) (lt eq : Bool) (h1 : lt = true ↔ p < q) (h2 : eq = true ↔ p = q) :
+    (match three lt eq with | .ok c => if c = -1 then Cmp.lt else Cmp.ge | .err => Cmp.err) = if p < q then Cmp.lt else Cmp.ge := by
+  by_cases hlt : p < q
+  · have e1 : lt = true := h1.2 hlt
+    have e2 : eq = false := by
+      cases eq
+      · rfl
+      · have := h2.1 rfl; omega
+    subst e1; subst e2; simp [three, hlt]
+  · have e1 : lt = false := by
+      cases lt
+      · rfl
+      · exact absurd (h1.1 rfl) hlt
+    subst e1
+    cases eq <;> simp [three, hlt]
+
+theorem cmpVal_num (h : Heap) (fuel : Nat) (a b : Val) (ha : isNum a = true) (hb : isNum b = true) :
+    cmpVal h fuel a b = keyCmp a b := by
+  cases a <;> simp [isNum, numKey] at ha <;> cases b <;> simp [isNum, numKey] at hb <;>
+    simp only [cmpVal, cmp3, keyCmp] <;>
+    refine cmp_aux _ _ _ _ ?_ ?_ <;>
+    simp only [decide_eq_true_eq, beq_iff_eq, keyOf, numKey, Option.getD_some] <;> omega
+theorem ins_congr (cmp cmp' : Val → Val → Cmp) (x : Val) (rp : List Val)
+    (hc : ∀ y ∈ rp, cmp x y = cmp' x y) : Impl.ins cmp x rp = Impl.ins cmp' x rp := by
+  induction rp with
+  | nil => simp [Impl.ins]
+  | cons y ys ih =>
+    unfold Impl.ins
+    rw [hc y (by simp), ih (fun z hz => hc z (by simp [hz]))]
+
+theorem sortLoop_congr (cmp cmp' : Val → Val → Cmp) (rp rest : List Val) (flag : Cmp)
+    (hc : ∀ a ∈ rp ++ rest, ∀ b ∈ rp ++ rest, cmp a b = cmp' a b) :
+    Impl.sortLoop cmp rp rest flag = Impl.sortLoop cmp' rp rest flag := by
+  induction rest generalizing rp flag with
+  | nil => simp [Impl.sortLoop]
+  | cons x rest ih =>
+    unfold Impl.sortLoop
+    have hi : Impl.ins cmp x rp = Impl.ins cmp' x rp :=
+      ins_congr cmp cmp' x rp (fun y hy => hc x (by simp) y (by simp [hy]))
+    rw [← hi]
+    have hp := ins_perm cmp x rp
+    cases hins : Impl.ins cmp x rp with
+    | mk rp' c =>
+      rw [hins] at hp
+      have hc' : ∀ a ∈ rp' ++ rest, ∀ b ∈ rp' ++ rest, cmp a b = cmp' a b := by
+        intro a ha b hb
+        have mem : ∀ z, z ∈ rp' ++ rest → z ∈ rp ++ x :: rest := by
+          intro z hz
+          simp only [List.mem_append, List.mem_cons] at hz ⊢
+          rcases hz with hz | hz
+          · have := hp.mem_iff.1 hz
+            simp only [List.mem_cons] at this
+            rcases this with rfl | h1
+            · exact Or.inr (Or.inl rfl)
+            · exact Or.inl h1
+          · exact Or.inr (Or.inr hz)
+        exact hc a (mem a ha) b (mem b hb)
+      cases c with
+      | panic => rfl
+      | err => exact ih rp' .err hc'
+      | lt => exact ih rp' flag hc'
+      | ge => exact ih rp' flag hc'
+
+theorem sort_num_eq (h : Heap) (xs : List Val) (hn : xs.all isNum = true) :
+    Impl.sort (hcmp h) xs = Impl.sort keyCmp xs := by
+  unfold Impl.sort
+  apply sortLoop_congr
+  intro a ha b hb
+  simp only [List.nil_append] at ha hb
+  rw [List.all_eq_true] at hn
+  exact cmpVal_num h _ a b (hn a ha) (hn b hb)
+
+theorem keyCmp_good : GoodCmp keyCmp := goodCmp_of_key keyOf
+
+/-- stability of one insertion: `x` only moves past items of another value -/
+theorem ins_sameValue (v x : Val) (rp : List Val) :
+    Spec.sameValue v (Impl.ins keyCmp x rp).1 = Spec.sameValue v (x :: rp) := by
+  induction rp with
+  | nil => simp [Impl.ins]
+  | cons y ys ih =>
+    unfold Impl.ins
+    by_cases hlt : keyOf x < keyOf y
+    · simp only [keyCmp, hlt, if_true]
+      have ih' : Spec.sameValue v (Impl.ins keyCmp x ys).1 = Spec.sameValue v (x :: ys) := ih
+      simp only [Spec.sameValue, List.filter_cons] at ih' ⊢
+      rw [ih']
+      by_cases h1 : keyOf x = keyOf v <;> by_cases h2 : keyOf y = keyOf v <;> simp [h1, h2]
+      omega
+    · simp [keyCmp, hlt]
+
+theorem sameValue_append (v : Val) (a b : List Val) :
+    Spec.sameValue v (a ++ b) = Spec.sameValue v a ++ Spec.sameValue v b := by
+  simp [Spec.sameValue]
+
+theorem sameValue_reverse (v : Val) (a : List Val) :
+    Spec.sameValue v a.reverse = (Spec.sameValue v a).reverse := by
+  simp [Spec.sameValue, List.filter_reverse]
+
+theorem sortLoop_sameValue (v : Val) (rp rest : List Val) (flag : Cmp) :
+    Spec.sameValue v (Impl.sortLoop keyCmp rp rest flag).1 = Spec.sameValue v (rp.reverse ++ rest) := by
+  induction rest generalizing rp flag with
+  | nil => simp [Impl.sortLoop]
+  | cons x rest ih =>
+    unfold Impl.sortLoop
+    have hs := ins_sameValue v x rp
+    cases hins : Impl.ins keyCmp x rp with
+    | mk rp' c =>
+      rw [hins] at hs
+      simp only at hs
+      have key : Spec.sameValue v (rp'.reverse ++ rest) = Spec.sameValue v (rp.reverse ++ x :: rest) := by
+        rw [sameValue_append, sameValue_reverse, hs]
+        simp [Spec.sameValue, List.filter_cons, List.filter_reverse]
+        split <;> simp
+      cases c with
+      | panic => exact key
+      | err => exact (ih rp' .err).trans key
+      | lt => exact (ih rp' flag).trans key
+      | ge => exact (ih rp' flag).trans key
+
+theorem ascending_of_pairwise (ys : List Val) (hp : ys.Pairwise (fun a b => keyOf a ≤ keyOf b)) :
+    Spec.ascending ys = true := by
+  induction ys with
+  | nil => rfl
+  | cons a rest ih =>
+    cases rest with
+    | nil => rfl
+    | cons b rest =>
+      have h1 := List.pairwise_cons.1 hp
+      simp only [Spec.ascending, Bool.and_eq_true, decide_eq_true_eq]
+      exact ⟨h1.1 b (by simp), ih h1.2⟩
+
+theorem sort_key_pairwise (xs : List Val) :
+    (Impl.sort keyCmp xs).2 = .ge ∧ (Impl.sort keyCmp xs).1.Pairwise (fun a b => keyOf a ≤ keyOf b) := by
+  have h := sortLoop_sorted keyCmp keyCmp_good [] xs (by simp [RSorted])
+  refine ⟨h.1, List.Pairwise.imp ?_ h.2⟩
+  intro a b hab
+  unfold keyCmp at hab
+  by_cases hlt : keyOf b < keyOf a
+  · simp [hlt] at hab
+  · omega
+
+theorem sort_key_isSortOf (xs : List Val) : Spec.isSortOf xs (Impl.sort keyCmp xs).1 = true := by
+  unfold Spec.isSortOf
+  simp only [Bool.and_eq_true, List.all_eq_true, beq_iff_eq]
+  refine ⟨ascending_of_pairwise _ (sort_key_pairwise xs).2, ?_⟩
+  intro v _
+  have := sortLoop_sameValue v [] xs .ge
+  simpa [Impl.sort] using this
+
 end Risor.C16
